@@ -33,6 +33,8 @@ class H(semh.Base):
     def run(self, ex):
         fam = self.fam; kit = fam.kit
         kind, n = self.task
+        unterminated = kind.endswith("!")
+        kind = kind.rstrip("!")
         self.symvars = {}
         cs = [ord('"')]
         sym = []
@@ -41,18 +43,25 @@ class H(semh.Base):
             ex.add_constraint(z3.Or(z3.ULE(c.e, 0xD7FF), z3.And(z3.UGE(c.e, 0xE000), z3.ULE(c.e, 0x10FFFF))))
             self.symvars[f"c{i}"] = c
             sym.append(c); cs.append(c)
-        cs.append(ord('"'))
+        if not unterminated:
+            cs.append(ord('"'))
         # the token is what the lexer delimits: a quote inside is escaped, the closing quote is not
         esc = z3.BoolVal(False)       # is character i escaped by an (unescaped) backslash before it
         for i, c in enumerate(sym):
             ex.add_constraint(z3.Implies(c.e == ord('"'), esc))
             esc = z3.And(c.e == ord("\\"), z3.Not(esc))
-        ex.add_constraint(z3.Not(esc))
+        if not unterminated:
+            ex.add_constraint(z3.Not(esc))
         if kind == "BIT_STRING":
             pass
         src = kit.source()
-        src.tok(kind, cs); src.tok("SEMICOLON", ";")
-        self.toks = [(kind, cs, False), ("SEMICOLON", ";", False)]
+        if unterminated:
+            # an unterminated literal runs to the end of the input: it is the last token (SourceFile::parse still parses and validates it)
+            src.tok(kind, cs, True)
+            self.toks = [(kind, cs, True)]
+        else:
+            src.tok(kind, cs); src.tok("SEMICOLON", ";")
+            self.toks = [(kind, cs, False), ("SEMICOLON", ";", False)]
         root = src.build(ex)
         full = src.full
         errs = kit.validate(ex, root)
@@ -102,7 +111,7 @@ def native_confirm(text):
 
 def run_escapes(ctx, res):
     ns = (1, 2, 3) if ctx.quick() else (1, 2, 3, 4)
-    tasks = [(k, n) for k in ("STRING", "BIT_STRING") for n in ns]
+    tasks = [(k, n) for k in ("STRING", "BIT_STRING") for n in ns] + [(k + "!", n) for k in ("STRING", "BIT_STRING") for n in (0, 1, 2)]
     fails, counts, on_result = semh.collector(res, label_of=lambda t: f"{t[0]}/{t[1]}")
     st, errs = explore.explore_many(semh.famfactory(ctx.known, ctx.seed, H), tasks, workers=ctx.workers, max_paths=200000, on_result=on_result, log=ctx.log)
     res.merge_stats(st)
